@@ -111,6 +111,11 @@ class ConstructPipeline(RewritePattern):
                 break
             assert next_op is not None
 
+        # the stages must run up to the yield: anything else in the body would be
+        # left behind in the loop, next to (and out of step with) the pipeline
+        if not isinstance(next_op, scf.YieldOp):
+            return
+
         # a valid pipeline has at least two stages
         if len(stages) < 2:
             return
